@@ -1,0 +1,59 @@
+// Copyright 2016-2019 DutchSec (https://dutchsec.com/)
+//
+// Licensed under the Apache License, Version 2.0 (the "License");
+// you may not use this file except in compliance with the License.
+// You may obtain a copy of the License at
+//
+// http://www.apache.org/licenses/LICENSE-2.0
+//
+// Unless required by applicable law or agreed to in writing, software
+// distributed under the License is distributed on an "AS IS" BASIS,
+// WITHOUT WARRANTIES OR CONDITIONS OF ANY KIND, either express or implied.
+// See the License for the specific language governing permissions and
+// limitations under the License.
+package snmp
+
+// maxDepth bounds the nesting of elements in a message.
+const maxDepth = 32
+
+// lengthsFit reports whether b is a sequence of BER elements none of which,
+// at any depth, announces more contents than its container holds. The ASN.1
+// decoder allocates announced lengths, so they are checked before it runs.
+func lengthsFit(b []byte, depth int) bool {
+	if depth > maxDepth {
+		return false
+	}
+
+	for len(b) > 0 {
+		if len(b) < 2 || b[0]&0x1f == 0x1f {
+			return false
+		}
+
+		hdr, length := 2, int(b[1])
+		if length >= 0x80 {
+			k := length & 0x7f
+			if k == 0 || k > 2 || 2+k > len(b) {
+				return false
+			}
+
+			length = 0
+			for _, v := range b[2 : 2+k] {
+				length = length<<8 | int(v)
+			}
+
+			hdr += k
+		}
+
+		if length > len(b)-hdr {
+			return false
+		}
+
+		if b[0]&0x20 != 0 && !lengthsFit(b[hdr:hdr+length], depth+1) {
+			return false
+		}
+
+		b = b[hdr+length:]
+	}
+
+	return true
+}
